@@ -20,70 +20,85 @@ from ..model import AnalysisError, stmt_text, walk_no_nested
 from ..paths import unversion
 
 
-def isinstance_chain(fi, var):
-    """[(class name, If node)] of the top-level if/elif chain testing isinstance(var, X)"""
-    out = []
-    for st in fi.body:
-        cur = st
-        while isinstance(cur, ast.If):
-            t = cur.test
-            if isinstance(t, ast.Call) and isinstance(t.func, ast.Name) and t.func.id == 'isinstance' \
-                    and isinstance(t.args[0], ast.Name) and t.args[0].id == var:
-                out.append((ast.unparse(t.args[1]), cur))
-            else:
-                break
-            if len(cur.orelse) == 1 and isinstance(cur.orelse[0], ast.If):
-                cur = cur.orelse[0]
-            else:
-                out.append(('else', cur.orelse))
-                cur = None
-        if out:
-            break
-    return out
+def dispatch_order(ctx, fi, var):
+    """order in which the types of ``var`` are tested, and the paths of each arm, derived from the
+    path conditions (so if/elif chains, nested ifs and swapped branches are all read alike)"""
+    arms = {}
+    longest = []
+    for p in ctx.paths(fi):
+        tests = []
+        for c in p.conds():
+            c = unversion(c)
+            neg = False
+            t = c
+            if t[0] == 'not':
+                neg, t = True, t[1]
+            if t[0] == 'call' and t[1] == 'isinstance' and t[2] and t[2][0] == ('name', var):
+                tests.append((T.show(t[2][1]), not neg))
+        if len(tests) > len(longest):
+            longest = tests
+        taken = [k for k, pos in tests if pos]
+        key = taken[0] if taken else 'else'
+        arms.setdefault(key, []).append(p)
+    order = [k for k, _ in longest]
+    return order, arms
 
 
 def run(chk, ctx) -> None:
     prog = ctx.prog
     mi = prog.module('utilities')
     sev = SEval(prog)
+    m = ctx.m
     # ------------------------------------------------------------------ values
     cv = mi.functions.get('clean_values')
     if cv is None:
         raise AnalysisError('utilities.clean_values vanished')
-    chain = isinstance_chain(cv, 'values')
-    kinds = [k for k, _ in chain]
-    chk.ob('C19.values', 'utilities.clean_values:dispatch', kinds == ['Number', 'Mapping', 'Iterable', 'else'], cv.loc,
+    order, arms = dispatch_order(ctx, cv, 'values')
+    chk.ob('C19.values', 'utilities.clean_values:dispatch', order == ['Number', 'Mapping', 'Iterable'] and 'else' in arms, cv.loc,
            'a single number, then any mapping (the abstract Mapping, tested before the generic iterable), then any iterable; anything else is an error',
-           got=kinds, want=['Number', 'Mapping', 'Iterable', 'else'])
-    arms = dict(chain)
+           got=order + (['else'] if 'else' in arms else []), want=['Number', 'Mapping', 'Iterable', 'else'])
+
+    def returned(ps):
+        out = []
+        for p in ps:
+            if p.returned:
+                r = unversion(p.outcome[1])
+                if r[0] == 'call' and r[1] == 'cast' and len(r[2]) == 2:
+                    r = r[2][1]
+                out.append((p, r))
+        return out
     if set(('Number', 'Mapping', 'Iterable', 'else')) <= set(arms):
-        num = arms['Number']
-        ok = any(T.mentions(T.norm(n.value), lambda s: s == ('repeat', ('tuple', (('name', 'values'),)), ('name', 'count')))
-                 for n in ast.walk(num) if isinstance(n, ast.Assign) and n in num.body)
-        chk.ob('C19.values', 'utilities.clean_values:number', ok, ctx.loc(cv, num), 'a single number stands for that amount for every player')
-        mp = arms['Mapping']
-        init = any(isinstance(n, ast.Assign) and T.norm(n.value) == T.spec('[0] * count') for n in mp.body)
-        acc = any(isinstance(n, ast.AugAssign) and isinstance(n.op, ast.Add) and T.norm(n.target) == T.spec('parsed_values[key]') and T.norm(n.value) == ('name', 'value')
-                  for s in mp.body for n in ast.walk(s))
-        items = any(isinstance(n, ast.For) and T.norm(n.iter) == T.spec('values.items()') for n in mp.body)
-        chk.ob('C19.values', 'utilities.clean_values:mapping', init and acc and items, ctx.loc(cv, mp),
+        rs = returned(arms['Number'])
+        ok = bool(rs) and all(r == T.spec('(values,) * count') for _, r in rs)
+        chk.ob('C19.values', 'utilities.clean_values:number', ok, cv.loc, 'a single number stands for that amount for every player',
+               got=[T.show(r) for _, r in rs], want='(values,) * count')
+        rs = returned(arms['Mapping'])
+        zeros = T.spec('[0] * count')
+        acc = items = False
+        for p, r in rs:
+            for e in p.events:
+                if e.kind == 'loop' and e.op == 'enter' and unversion(e.term) == T.spec('values.items()'):
+                    items = True
+                if e.kind == 'lwrite' and e.op == '+=':
+                    it = T.spec('values.items()')
+                    acc |= unversion(e.term) == ('sub', zeros, ('proj', ('elem', it), 0)) and unversion(e.value) == ('proj', ('elem', it), 1)
+        ok_ret = bool(rs) and all(r == ('call', 'tuple', (zeros,), ()) for _, r in rs)
+        chk.ob('C19.values', 'utilities.clean_values:mapping', ok_ret and acc and items, cv.loc,
                'a position -> amount mapping starts from zeros and adds each amount at its position (negative positions count from the button)',
-               got=f'zeros: {init}; += at key: {acc}; over items: {items}')
-        it = arms['Iterable']
-        trunc = any(isinstance(n, ast.Assign) and T.norm(n.value) == T.spec('list(values)[:count]') for n in it.body)
-        pad = any(isinstance(n, ast.While) and T.cond(n.test) == T.spec('len(parsed_values) < count', boolean=True)
-                  and any(isinstance(c, ast.Call) and isinstance(c.func, ast.Attribute) and c.func.attr == 'append' and c.args and T.norm(c.args[0]) == T.num(0) for c in ast.walk(n))
-                  for n in it.body)
-        chk.ob('C19.values', 'utilities.clean_values:iterable', trunc and pad, ctx.loc(cv, it),
-               'a list / tuple is cut to the player count and missing entries are zero', got=f'truncate: {trunc}; pad with 0: {pad}')
-        el = arms['else']
-        ok = any(isinstance(n, ast.Raise) and 'ValueError' in ast.unparse(n) for n in el)
+               got=f'tuple of a zero-initialised list: {ok_ret}; += at key: {acc}; over items: {items}')
+        rs = returned(arms['Iterable'])
+        cut = T.spec('list(values)[:count]')
+        ok_ret = bool(rs) and all(r == ('call', 'tuple', (cut,), ()) for _, r in rs)
+        pad = False
+        for p, r in rs:
+            conds = [unversion(c) for c in p.conds()]
+            if T.spec('len(L) < count', {'L': cut}, boolean=True) in conds:
+                pad |= any(e.kind == 'call' and unversion(e.term) == ('mcall', cut, 'append', (T.num(0),), ()) for e in p.events)
+        chk.ob('C19.values', 'utilities.clean_values:iterable', ok_ret and pad, cv.loc,
+               'a list / tuple is cut to the player count and missing entries are zero', got=f'truncate: {ok_ret}; pad with 0 while short: {pad}')
+        ok = all(p.raised and p.outcome[1] == 'ValueError' for p in arms['else'])
         chk.ob('C19.values', 'utilities.clean_values:else', ok, cv.loc, 'anything else is rejected with ValueError')
-    rets = [n for n in walk_no_nested(cv.node) if isinstance(n, ast.Return)]
-    chk.ob('C19.values', 'utilities.clean_values:tuple', all(T.norm(r.value) == ('name', 'values') for r in rets) and
-           all(any(isinstance(n, ast.Assign) and ast.unparse(n.targets[0]) == 'values' and ast.unparse(n.value).startswith(('tuple(', 'cast(tuple')) for n in ast.walk(a))
-               for k, a in chain if k in ('Number', 'Mapping', 'Iterable')), cv.loc, 'every representation ends as a tuple of per-player amounts')
-    chk.floor('C19.values', 6)
+    chk.floor('C19.values', 5)
     # State uses it for antes, blinds and stacks alike
     pi = ctx.sfi('__post_init__')
     want = {'antes': 'raw_antes', 'blinds_or_straddles': 'raw_blinds_or_straddles', 'starting_stacks': 'raw_starting_stacks'}
@@ -111,31 +126,30 @@ def run(chk, ctx) -> None:
     if ps is None:
         raise AnalysisError('Card.parse vanished')
     facts = {
-        "10 -> T, commas dropped": any(isinstance(n, ast.Assign) and T.norm(n.value) in (
-            T.spec("contents.replace('10', 'T').replace(',', '')"), T.spec("contents.replace(',', '').replace('10', 'T')")) for n in ast.walk(ps.node)),
-        'white space separates': any(isinstance(n, ast.For) and T.norm(n.iter) == T.spec('contents.split()') for n in ast.walk(ps.node)),
-        'odd length rejected': any(isinstance(n, ast.If) and T.cond(n.test) == T.spec('len(content) % 2 != 0', boolean=True) and any(isinstance(s, ast.Raise) for s in n.body)
-                                   for n in ast.walk(ps.node)),
-        'two-character steps': any(isinstance(n, ast.For) and T.norm(n.iter) == T.spec('range(0, len(content), 2)') for n in ast.walk(ps.node)),
-        'rank then suit': any(isinstance(n, ast.Assign) and ast.unparse(n.targets[0]) == 'rank' and T.norm(n.value) == T.spec('Rank(content[i])') for n in ast.walk(ps.node))
-        and any(isinstance(n, ast.Assign) and ast.unparse(n.targets[0]) == 'suit' and T.norm(n.value) == T.spec('Suit(content[i + 1])') for n in ast.walk(ps.node)),
-        'card from (rank, suit)': any(isinstance(n, ast.Yield) and T.norm(n.value) == T.spec('cls(rank, suit)') for n in ast.walk(ps.node)),
+        "10 -> T, commas dropped": bool(m.assigns(ps.node, "contents.replace('10', 'T').replace(',', '')", nested=True)
+                                        or m.assigns(ps.node, "contents.replace(',', '').replace('10', 'T')", nested=True)),
+        'white space separates': bool(m.fors(ps.node, 'contents.split()', nested=True)),
+        'odd length rejected': any(any(isinstance(x, ast.Raise) for x in n.body) for n in m.ifs(ps.node, 'len(content) % 2 != 0', nested=True)),
+        'two-character steps': bool(m.fors(ps.node, 'range(0, len(content), 2)', nested=True)),
+        'rank then suit, card from (rank, suit)': any(
+            isinstance(n, ast.Yield) and (m.eq(T.norm(n.value), 'cls(Rank(content[i]), Suit(content[i + 1]))') or _parse_pair(m, ps.node, n))
+            for n in ast.walk(ps.node)),
     }
     missing = [k for k, v in facts.items() if not v]
     chk.ob('C19.card_text', 'Card.parse', not missing, ps.loc,
            'text is read as rank then suit in two-character steps after "10" -> "T"; commas and white space are ignored; a dangling character is an error',
            got=f'missing: {missing}' if missing else 'ok')
     cl = card.methods.get('clean')
-    chain = isinstance_chain(cl, 'values')
-    kinds = [k for k, _ in chain]
-    chk.ob('C19.clean', 'Card.clean:dispatch', kinds == ['Card', 'str', 'Iterable', 'else'], cl.loc,
-           'a card, a text (tested before the generic iterable - a str is iterable), any iterable of cards; anything else is an error', got=kinds)
-    if kinds == ['Card', 'str', 'Iterable', 'else']:
-        arms = dict(chain)
-        ok = any(isinstance(n, ast.Assign) and T.norm(n.value) == T.spec('(values,)') for n in arms['Card'].body) \
-            and any(isinstance(n, ast.Assign) and T.norm(n.value) == T.spec('tuple(Card.parse(values))') for n in arms['str'].body) \
-            and any(isinstance(n, ast.Assign) and T.norm(n.value) == T.spec('tuple(values)') for n in arms['Iterable'].body) \
-            and any(isinstance(n, ast.Raise) and 'ValueError' in ast.unparse(n) for n in arms['else'])
+    order, arms = dispatch_order(ctx, cl, 'values')
+    chk.ob('C19.clean', 'Card.clean:dispatch', order == ['Card', 'str', 'Iterable'] and 'else' in arms, cl.loc,
+           'a card, a text (tested before the generic iterable - a str is iterable), any iterable of cards; anything else is an error', got=order)
+    if set(('Card', 'str', 'Iterable', 'else')) <= set(arms):
+        want = {'Card': '(values,)', 'str': 'tuple(Card.parse(values))', 'Iterable': 'tuple(values)'}
+        ok = True
+        for k, w in want.items():
+            rs = [unversion(p.outcome[1]) for p in arms[k] if p.returned]
+            ok &= bool(rs) and all(r == T.spec(w) for r in rs)
+        ok &= all(p.raised and p.outcome[1] == 'ValueError' for p in arms['else'])
         chk.ob('C19.clean', 'Card.clean:arms', ok, cl.loc, 'each form is turned into the tuple of the cards it denotes')
     # --------------------------------------------------------------- validation
     want = [
@@ -178,6 +192,20 @@ def run(chk, ctx) -> None:
                 rets[T.show(p.conds()[-1]) if p.conds() else ''] = p.outcome[1]
     chk.ob('C19.values', 'utilities.sign', sorted(v[1] for v in rets.values() if v[0] == 'num') == [-1, 0, 1], sg.loc if sg else 'pokerkit/utilities.py',
            'sign() distinguishes positive, negative and zero amounts (late posts are negative blinds)')
+
+
+def _parse_pair(m, fn, y):
+    """yield cls(r, s) with r = Rank(content[i]) and s = Suit(content[i + 1]) bound just before"""
+    if not (isinstance(y.value, ast.Call) and len(y.value.args) == 2 and all(isinstance(a, ast.Name) for a in y.value.args)
+            and isinstance(y.value.func, ast.Name) and y.value.func.id == 'cls'):
+        return False
+    r, s2 = (a.id for a in y.value.args)
+    ra = [n for n in ast.walk(fn) if isinstance(n, ast.Assign) and isinstance(n.targets[0], ast.Name) and n.targets[0].id == r]
+    sa = [n for n in ast.walk(fn) if isinstance(n, ast.Assign) and isinstance(n.targets[0], ast.Name) and n.targets[0].id == s2]
+    if len(ra) != 1 or len(sa) != 1:
+        return False
+    pair = ('pair', T.norm(ra[0].value), T.norm(sa[0].value))
+    return T.alpha_eq(pair, ('pair', T.spec('Rank(content[i])'), T.spec('Suit(content[i + 1])')), m.is_var)
 
 
 class _Rename:
